@@ -197,3 +197,70 @@ def emit_table(prog, f, out_field=None, out_pred=None, extra_env=None):
                 out.append(v & 255)
         table[bv] = out
     return table, reject
+
+
+def interp_table(prog, f, out_field):
+    """The same table by interpretation of the whole escaper (scansim; the output member is a text sink): the function is run on
+    every one-byte string, and on every string of two and three bytes over the bytes it treats specially (plus two plain
+    ones) to establish that what it writes for a byte does not depend on its neighbours - a whole-string shortcut (e.g. a
+    `strpbrk` pre-test) or a look-ahead shows up here.  -> (table {byte: emitted bytes}, framing (prefix, suffix),
+    context issues [(input bytes, emitted, expected)]).  Raises Unresolved when the body is outside the interpreted fragment."""
+    import scansim, itertools
+    if not f['params']:
+        raise Unresolved('escaper without a parameter')
+    p0 = f['params'][0]
+    pt = T(f, p0['t'])
+    base = T(f, pt.get('to')) if (pt.get('ref') or pt.get('ptr')) else pt
+    as_string = base.get('rec') == 'asl::String'
+    if not as_string and not (pt.get('ptr') and base.get('bits') == 8):
+        raise Unresolved('escaper parameter is neither a C string nor a String')
+
+    def run(bs):
+        chars = [b - 256 if b > 127 else b for b in bs] + [0]
+        bufs = {'OUT': []}
+        if as_string:
+            bufs[('O', p0['id'])] = chars
+            r = scansim.Run(prog, f, bufs, growable=('OUT',), objects=True)
+            r.objlen[p0['id']] = len(bs)
+        else:
+            bufs['IN'] = chars
+            r = scansim.Run(prog, f, bufs, ptr_params={p0['id']: ('P', 'IN', 0)}, growable=('OUT',), objects=True)
+        r.sinks = {out_field: 'OUT'}
+        try:
+            r.run()
+        except scansim.OOB as o:
+            raise Unresolved('interpreted on %s: %s' % (bs, o))
+        except (scansim.Unsupported, TypeError, KeyError, IndexError) as u:
+            raise Unresolved('outside the interpreted fragment: %s' % u)
+        out = bufs['OUT']
+        if not all(isinstance(x, int) for x in out):
+            raise Unresolved('abstract output')
+        return [x & 255 for x in out]
+    oa = run([0x61])
+    if oa.count(0x61) != 1:
+        raise Unresolved('framing not recognised')
+    k = oa.index(0x61)
+    pre, suf = oa[:k], oa[k + 1:]
+
+    def body(out):
+        if out[:len(pre)] != pre or (suf and out[-len(suf):] != suf) or len(out) < len(pre) + len(suf):
+            return None
+        return out[len(pre):len(out) - len(suf)]
+    table = {}
+    for bv in range(1, 256):
+        b_ = body(run([bv]))
+        if b_ is None:
+            raise Unresolved('framing differs for byte %d' % bv)
+        table[bv] = b_
+    special = [b for b in range(1, 256) if table[b] != [b]]
+    alpha = sorted(set(special[:12] + [0x61, 0x20, 0x22, 0x27, 0x26, 0x3c, 0x3e, 0x5c, 0xe9]))[:14]
+    issues = []
+    for n_ in (2, 3):
+        for t in itertools.product(alpha if n_ == 2 else alpha[:8], repeat=n_):
+            got = body(run(list(t)))
+            want = [x for b in t for x in table[b]]
+            if got != want:
+                issues.append((list(t), got, want))
+                if len(issues) > 3:
+                    return table, (pre, suf), issues
+    return table, (pre, suf), issues
